@@ -325,3 +325,34 @@ def compare(seed, n):
             json.dumps(fb, sort_keys=True, default=str):
         diffs.append(dict(index='final', sqlite=fa, symdb=fb))
     return reqs, diffs, a
+
+
+def _norm(o):
+    if isinstance(o, dict):
+        return {k: _norm(v) for k, v in o.items()}
+    if isinstance(o, (list, tuple)):
+        return sorted((_norm(x) for x in o),
+                      key=lambda x: json.dumps(x, sort_keys=True, default=str))
+    return o
+
+
+def validate(seeds, n=40):
+    """Run the differential validation for the given seeds.  Returns a dict
+    for the evidence file; 'disagreements' must be empty."""
+    out = dict(programs=0, requests=0, disagreements=[], samples=[])
+    for seed in seeds:
+        reqs, diffs, a = compare(seed, n)
+        out['programs'] += 1
+        out['requests'] += len(reqs)
+        for d in diffs:
+            if d['index'] == 'final' or json.dumps(
+                    _norm(d['sqlite']), sort_keys=True, default=str) != \
+                    json.dumps(_norm(d['symdb']), sort_keys=True,
+                               default=str):
+                out['disagreements'].append(dict(seed=seed, **{
+                    k: str(v)[:300] for k, v in d.items()}))
+        if len(out['samples']) < 2:
+            out['samples'].append(dict(seed=seed, first_requests=[
+                '%s %s -> %s' % (r[0], r[1][:60], x[0])
+                for r, x in list(zip(reqs, a))[:6]]))
+    return out
